@@ -240,6 +240,17 @@ def run_traffic(sc):
         res['connect'] = 'ok'
         m.timeout = timeout
         sess = m._session
+        if sc.get('slow_construct'):
+            # a loaded machine: building the object for a large notification takes a while (time grows with size); whatever the library
+            # does with that time, the order of arrival is the order in which notifications are taken
+            import ncclient.transport.session as _sessmod
+            _orig_notification = _sessmod.Notification
+
+            def _slow_notification(raw, *a, **kw):
+                time.sleep(min(0.3, len(raw) / 1e6))
+                return _orig_notification(raw, *a, **kw)
+            _sessmod.Notification = _slow_notification
+            res['_restore_notification'] = _orig_notification
         start_barrier = None
         if sc.get('first_race'):
             # widen the window between "is there a reply listener yet?" and "install one": several threads issue the FIRST
@@ -257,6 +268,9 @@ def run_traffic(sc):
             # a backlog of notifications nobody has taken yet (replay / slow consumer), before any request is issued
             k = sc['burst']
             texts = [notif_text(state['notifs_sent'] + i + 1) for i in range(k)]
+            if sc.get('mixed_sizes'):
+                # every fourth notification is large (a full routing table, a config-change with the configuration in it)
+                texts = [t.replace('</notification>', '<detail>%s</detail></notification>' % ('<r a="1">x</r>' * 12000)) if i % 4 == 1 else t for i, t in enumerate(texts)]
             state['notifs_sent'] += k
             bt = threading.Thread(target=emit, args=(srv, texts), daemon=True)     # a server's writes never wait for our client
             bt.start()
@@ -375,6 +389,9 @@ def run_traffic(sc):
     finally:
         stop_flusher.set()
         srv.cleanup()
+        if res.get('_restore_notification') is not None:
+            import ncclient.transport.session as _sessmod
+            _sessmod.Notification = res.pop('_restore_notification')
     return res
 
 
